@@ -25,13 +25,18 @@ for _i in range(1, 21):
     prop("C%02d" % _i, claimed=False, reason=_NOT_YET)
 
 
+# properties whose check has been integrated and verified by the integrator (others stay under not_applicable
+# even if a props/<id>.py with META exists - it may be work in progress)
+READY = {"C14", "C20"}
+
+
 def _load_overrides():
     # property modules register themselves in props/<id>.py via META dicts
     import importlib
     for pid in list(PROPS):
         modname = "cuqiverif.props.%s" % pid.lower()
         path = os.path.join(ROOT, "harness", "cuqiverif", "props", pid.lower() + ".py")
-        if not os.path.exists(path):
+        if not os.path.exists(path) or pid not in READY:
             continue
         # read META without importing heavy deps: META is a literal dict assigned at top of file
         src = open(path).read()
